@@ -91,6 +91,43 @@ def h_roundtrip(ctx: Any, alphabet: str, steps: int, phase: str, twin: bool = Fa
         except Exception:
             ctx.count('interpreter_raised')
             return
+    _finish(ctx, it, log, phase, twin)
+
+
+def h_inst_orders(ctx: Any, kind: str, phase: str, twin: bool = False) -> None:
+    """Instantiate with two plugs and every key order, on a pattern (any phase) or on an axiom schema (proof phase)"""
+    from itertools import permutations
+
+    from proof_generation import pattern as P
+
+    it = _prelude(ctx, phase)
+    it._initial_claims = it._declared
+    log: list = []
+    try:
+        for _ in range(2):
+            log.append(callseq.step(ctx, it, ('evar', 'symbol', 'cmetavar')[ctx.choose(3, 'leaf')]))
+        plugs = list(it.stack[-2:])
+        if kind == 'pattern':
+            target = it.pattern(P.Implies(P.MetaVar(0), P.Implies(P.MetaVar(1), P.MetaVar(2))))
+        else:
+            target = it.prop2()
+        orders = list(permutations(range(3), 2))
+        keys = orders[ctx.choose(len(orders), 'keys')]
+        delta = dict(zip(keys, plugs))
+        log.append({'call': 'instantiate_pattern' if kind == 'pattern' else 'instantiate', 'keys': list(keys)})
+        if kind == 'pattern':
+            it.instantiate_pattern(target, delta)
+        else:
+            it.instantiate(target, delta)
+        if phase != 'proof' and kind == 'pattern' and ctx.choose(2, 'publish'):
+            log.append(callseq.step(ctx, it, 'publish'))
+    except Exception:
+        ctx.count('interpreter_raised')
+        return
+    _finish(ctx, it, log, phase, twin)
+
+
+def _finish(ctx: Any, it: Any, log: list, phase: str, twin: bool) -> None:
     ctx.count('reached')
     ctx.sample({'phase': phase, 'calls': log})
     streams = callseq.streams(it)
@@ -193,6 +230,8 @@ def levels(tier: str) -> list[dict]:
     plan = [('patterns', 'gamma', 3 if q else 5), ('patterns', 'claim', 3 if q else 4), ('proofs', 'proof', 3 if q else 5), ('small', 'proof', 3 if q else 6), ('all', 'gamma', 3 if q else 4)]
     for alpha, ph, st in plan:
         L.append(dict(label=f'roundtrip/{alpha}/{ph}/steps<={st}', module=M, fn='h_roundtrip', kwargs=dict(alphabet=alpha, steps=st, phase=ph), budget_s=bud, required=True, twin=(alpha == 'small')))
+    for kind, ph in (('pattern', 'gamma'), ('pattern', 'claim'), ('pattern', 'proof'), ('proof', 'proof')):
+        L.append(dict(label=f'instantiate-key-orders/{kind}/{ph}', module=M, fn='h_inst_orders', kwargs=dict(kind=kind, phase=ph), budget_s=bud, required=True, twin=False))
     for alpha, ph, st in [('patterns', 'gamma', 2 if q else 3), ('proofs', 'proof', 2 if q else 3)]:
         L.append(dict(label=f'malformed/{alpha}/{ph}/steps={st}', module=M, fn='h_malformed', kwargs=dict(alphabet=alpha, steps=st, phase=ph), budget_s=bud, required=True, twin=False))
     return L
